@@ -324,25 +324,54 @@ impl MutableArchive {
         let is_internal_update = archive_name == "(listfile)" || archive_name == "(attributes)";
 
         // Check if file exists and if we should replace it
-        let existing_block_index =
-            if let Some((hash_index, entry)) = self.find_file_entry(&archive_name)? {
-                if !options.replace_existing {
-                    return Err(Error::FileExists(archive_name));
-                }
-                // Mark the existing entry as deleted for now
-                if let Some(hash_table) = &mut self.hash_table {
-                    hash_table.get_mut(hash_index).unwrap().block_index = HashEntry::EMPTY_DELETED;
-                }
+        let existing_entry = self.find_file_entry(&archive_name)?;
+        if existing_entry.is_some() && !options.replace_existing {
+            return Err(Error::FileExists(archive_name));
+        }
 
-                // If this is a special file update, remember its block index for reuse
-                if is_internal_update {
-                    Some(entry.block_index)
-                } else {
-                    None
-                }
+        // A new name needs a free hash table slot. Check before anything is written so
+        // that a failed add leaves the archive as it was.
+        if existing_entry.is_none()
+            && let Some(hash_table) = &self.hash_table
+            && !hash_table
+                .entries()
+                .iter()
+                .any(|e| e.is_empty() || e.is_deleted())
+        {
+            return Err(Error::CapacityExceeded(format!(
+                "Hash table is full ({} entries), cannot add {archive_name}",
+                hash_table.size()
+            )));
+        }
+
+        // Find where to place the file (append to end for now)
+        let file_offset = self.get_archive_end_offset()?;
+        let relative_pos = (file_offset - self.archive.archive_offset()) as u32;
+
+        // Compress the file data if requested
+        let (compressed_data, compressed_size, flags) =
+            self.prepare_file_data(data, &archive_name, &options, relative_pos)?;
+
+        // Write the file data to the archive
+        self.file.seek(SeekFrom::Start(file_offset))?;
+        self.file.write_all(&compressed_data)?;
+
+        // The data is stored: now retire the entry it replaces
+        let existing_block_index = if let Some((hash_index, entry)) = existing_entry {
+            // Mark the existing entry as deleted for now
+            if let Some(hash_table) = &mut self.hash_table {
+                hash_table.get_mut(hash_index).unwrap().block_index = HashEntry::EMPTY_DELETED;
+            }
+
+            // If this is a special file update, remember its block index for reuse
+            if is_internal_update {
+                Some(entry.block_index)
             } else {
                 None
-            };
+            }
+        } else {
+            None
+        };
 
         // Determine block index - reuse for special files, allocate new for regular files
         let block_index = if let Some(existing_idx) = existing_block_index {
@@ -351,24 +380,12 @@ impl MutableArchive {
             self.block_table.as_ref().unwrap().entries().len() as u32
         };
 
-        // Find where to place the file (append to end for now)
-        let file_offset = self.get_archive_end_offset()?;
-
-        // Compress the file data if requested
-        let (compressed_data, compressed_size, flags) =
-            self.prepare_file_data(data, &archive_name, &options)?;
-
-        // Write the file data to the archive
-        self.file.seek(SeekFrom::Start(file_offset))?;
-        self.file.write_all(&compressed_data)?;
-
         // Update next file offset for subsequent files in this session
         let next_offset = file_offset + compressed_data.len() as u64;
         let aligned_next = (next_offset + 511) & !511; // Align to 512-byte boundary
         self.next_file_offset = Some(aligned_next);
 
         // Add block table entry
-        let relative_pos = (file_offset - self.archive.archive_offset()) as u32;
         let block_entry = BlockEntry {
             file_pos: relative_pos,
             compressed_size: compressed_size as u32,
@@ -972,6 +989,7 @@ impl MutableArchive {
         data: &[u8],
         archive_name: &str,
         options: &AddFileOptions,
+        file_pos: u32,
     ) -> Result<(Vec<u8>, usize, u32)> {
         let mut flags = BlockEntry::FLAG_EXISTS;
         let mut output_data = data.to_vec();
@@ -1002,39 +1020,17 @@ impl MutableArchive {
 
         // Encrypt if requested
         if options.encrypt {
+            let base_key = hash_string(archive_name, hash_type::FILE_KEY);
             let key = if options.fix_key {
-                // For FIX_KEY, we need the block position
-                // This is a simplified version - real implementation would adjust by block
-                hash_string(archive_name, hash_type::FILE_KEY)
+                // FIX_KEY: the key depends on the block position and the file size
+                base_key.wrapping_add(file_pos) ^ (data.len() as u32)
             } else {
-                hash_string(archive_name, hash_type::FILE_KEY)
+                base_key
             };
 
-            // Remember original length before padding (reserved for future use)
-            let _original_len = output_data.len();
-
-            // Pad to 4-byte boundary for encryption
-            while !output_data.len().is_multiple_of(4) {
-                output_data.push(0);
-            }
-
-            // Convert to u32s for encryption
-            let mut u32_buffer: Vec<u32> = output_data
-                .chunks_exact(4)
-                .map(|chunk| u32::from_le_bytes([chunk[0], chunk[1], chunk[2], chunk[3]]))
-                .collect();
-
-            encrypt_block(&mut u32_buffer, key);
-
-            // Convert back to bytes, but preserve original length info
-            output_data.clear();
-            for &value in &u32_buffer {
-                output_data.extend_from_slice(&value.to_le_bytes());
-            }
-
-            // For encrypted files, the compressed_size should include padding,
-            // but file_size should be the original unpadded size
-            // This will be handled in the block entry creation
+            // Encrypt exactly the stored bytes, the way the archive reader decrypts them.
+            // Padding them would become part of the stored (compressed) stream.
+            ArchiveBuilder::new().encrypt_data(&mut output_data, key);
 
             flags |= BlockEntry::FLAG_ENCRYPTED;
             if options.fix_key {
@@ -1065,7 +1061,13 @@ impl MutableArchive {
         let mut index = table_offset & (table_size - 1);
 
         // Linear probing to find empty or deleted slot
-        loop {
+        for probed in 0..=table_size {
+            if probed == table_size {
+                return Err(Error::CapacityExceeded(format!(
+                    "Hash table is full ({table_size} entries), cannot add {filename}"
+                )));
+            }
+
             let entry = hash_table.get_mut(index as usize).ok_or_else(|| {
                 Error::InvalidFormat("Hash table index out of bounds".to_string())
             })?;
